@@ -72,6 +72,11 @@ class DynamicFields:
 
   def _define_field_methods(self, fieldname):
     """Define field methods for a single field"""
+    if not self._is_valid_custom_tagname(fieldname) and \
+        fieldname not in self.__class__.PREDEFINED_TAGS:
+      # (only possible at vlevel 0) the field is accessible by get()/set()
+      # only; an attribute with such a name could shadow those of the line
+      return
     def getter(self):
       return self.get(fieldname)
     def try_get(self):
